@@ -263,7 +263,7 @@ class C14(Check):
             nstates = 1 if k % 3 else rng.randint(2, 3)
             states = []
             for j in range(nstates):
-                dt = dts[(k + j) % len(dts)]
+                dt = rng.choice(dts)         # (drawn: k also selects `via`)
                 default = None
                 if dt != 'mapper' and rng.random() < 0.4:
                     default = {'int': rng.choice([0, -1, 5]), 'uint': rng.choice([0, 7]), 'float': rng.choice([0.0, 1.5]),
